@@ -87,28 +87,60 @@ func c15MakeUniverse() (c15Universe []c15Node, c15ReprOf map[any]string) {
 	return
 }
 
-// c15Collide is the signature of finding D5: two different representations a, b such
-// that a+itoa(i) == b+itoa(j) for some i, j below the ring's replica count R, i.e. the
-// two nodes name the same virtual node.
-func c15Collide(a, b string, R int) bool {
-	if a == b {
-		return false
+// c15Families groups representations related by digit suffixes; a case concentrates on
+// one family so that members naming the same virtual node (also three at once, which
+// needs a replica count above 110) are common.
+var c15Families = func() [][]int {
+	fams := [][]string{
+		{"", "1", "11", "111", "110", "12", "7"},
+		{"1", "11", "111", "10", "12", "2", "21"},
+		{"n1", "n11", "n111", "n12", "n2", "n21"},
+		{"10.0.0.1", "10.0.0.11", "10.0.0.12", "10.0.0.2", "10.0.0.1:6379", "10.0.0.1:63791"},
+		{"2", "20", "21", "22", "25", "29", "3", "30"},
+		{"1.5", "1.51", "s2", "s21", "v3", "v31", "node", "node1", "localhost:1", "localhost:11"},
 	}
-	if len(a) > len(b) {
-		a, b = b, a
-	}
-	if !strings.HasPrefix(b, a) {
-		return false
-	}
-	d := b[len(a):]
-	for j := 0; j < R; j++ {
-		s := d + strconv.Itoa(j)
-		i, err := strconv.Atoi(s)
-		if err == nil && i >= 0 && i < R && strconv.Itoa(i) == s {
-			return true
+	out := make([][]int, len(fams))
+	for k, f := range fams {
+		for _, r := range f {
+			for i, u := range c15Universe {
+				if u.repr == r {
+					out[k] = append(out[k], i)
+				}
+			}
 		}
 	}
-	return false
+	return out
+}()
+
+// c15SharedNames counts the virtual-node names two different representations have in
+// common: pairs i < na, j < nb with a+itoa(i) == b+itoa(j).
+func c15SharedNames(a string, na int, b string, nb int) int {
+	if a == b {
+		return 0
+	}
+	if len(a) > len(b) {
+		a, b, na, nb = b, a, nb, na
+	}
+	if !strings.HasPrefix(b, a) {
+		return 0
+	}
+	d := b[len(a):]
+	n := 0
+	for j := 0; j < nb; j++ {
+		s := d + strconv.Itoa(j)
+		i, err := strconv.Atoi(s)
+		if err == nil && i >= 0 && i < na && strconv.Itoa(i) == s {
+			n++
+		}
+	}
+	return n
+}
+
+// c15Collide is the signature of finding D5: two different representations a, b such
+// that a+itoa(i) == b+itoa(j) for some i, j below the ring's replica count R, i.e. the
+// two nodes can name the same virtual node.
+func c15Collide(a, b string, R int) bool {
+	return c15SharedNames(a, R, b, R) > 0
 }
 
 // ------------------------------------------------------------------ probes
@@ -275,10 +307,11 @@ func TestVerifC15Ring(t *testing.T) {
 		rk := rapid.SampledFrom(c15Rings).Draw(t, "ring")
 		R := rk.R
 		ch := rk.mk()
+		family := rapid.SampledFrom(c15Families).Draw(t, "family")
 		members := map[string]*c15Member{}
 		var logb strings.Builder
 		fmt.Fprintf(&logb, "ring=%s:", rk.name)
-		nontrivial, sawCollision, sawZero, sawReplace := false, false, false, false
+		nontrivial, sawCollision, sawZero, sawReplace, sawShared, sawShared3 := false, false, false, false, false, false
 
 		before, err := c15Snapshot(ch, probes)
 		if err != nil {
@@ -320,7 +353,12 @@ func TestVerifC15Ring(t *testing.T) {
 				}
 				return n
 			}
-			idx := rapid.IntRange(0, len(c15Universe)-1).Draw(t, "node")
+			var idx int
+			if rapid.Bool().Draw(t, "fromFamily") {
+				idx = rapid.SampledFrom(family).Draw(t, "node")
+			} else {
+				idx = rapid.IntRange(0, len(c15Universe)-1).Draw(t, "node")
+			}
 			n = c15Universe[idx]
 			if adding && knownD5 && collidesWithMembers(n.repr) {
 				// known finding D5: this node would share a virtual node with a member
@@ -366,6 +404,31 @@ func TestVerifC15Ring(t *testing.T) {
 					if c15Collide(rs[i], rs[j], R) {
 						sawCollision = true
 						break
+					}
+				}
+			}
+
+			// virtual nodes really owned by two (three) members at this moment
+			for i := 0; i < len(rs); i++ {
+				with := 0
+				for j := 0; j < len(rs); j++ {
+					if c15SharedNames(rs[i], members[rs[i]].eff, rs[j], members[rs[j]].eff) > 0 {
+						with++
+					}
+				}
+				if with >= 1 {
+					sawShared = true
+				}
+			}
+			if sawShared && !sawShared3 && R > 110 {
+				owners := map[string]int{}
+				for _, r := range rs {
+					for i := 0; i < members[r].eff; i++ {
+						name := r + strconv.Itoa(i)
+						owners[name]++
+						if owners[name] >= 3 {
+							sawShared3 = true
+						}
 					}
 				}
 			}
@@ -490,7 +553,13 @@ func TestVerifC15Ring(t *testing.T) {
 		})
 
 		if sawCollision {
-			st.Class("case:members-shared-a-virtual-node")
+			st.Class("case:members-match-D5-signature")
+		}
+		if sawShared {
+			st.Class("case:virtual-node-owned-by-2-members")
+		}
+		if sawShared3 {
+			st.Class("case:virtual-node-owned-by-3-members")
 		}
 		if sawZero {
 			st.Class("case:zero-replica-member")
@@ -593,6 +662,7 @@ func TestVerifC15RegressD5(t *testing.T) {
 	for _, r := range c15D5 {
 		st.Eval()
 		st.Class("regress:" + r.name)
+		st.Sample(fmt.Sprintf("%s: %v vs %v", r.name, r.a, r.b))
 		d := r.run(probes)
 		if d == "" {
 			continue
